@@ -480,9 +480,10 @@ def op_class(ops: list[str]) -> str:
 
 def history(seed_parts: tuple[Any, ...], n_steps: int = 8, n_modules: int = 5, kinds: list[str] | None = None,
             cycles: bool = True, revert_p: float = 0.12, double_p: float = 0.15,
-            ops: list[str] | None = None, packages: bool = True, import_forms: list[str] | None = None) -> dict[str, Any]:
-    from .common import rng_for
-    rng = rng_for("histgen", *seed_parts)
+            ops: list[str] | None = None, packages: bool = True, import_forms: list[str] | None = None,
+            fixed: bool = False) -> dict[str, Any]:
+    from .common import rng_for, rng_fixed
+    rng = (rng_fixed if fixed else rng_for)("histgen", *seed_parts)
     proj = Project(rng, n_modules=n_modules, kinds=kinds, cycles=cycles, ops=ops, packages=packages, import_forms=import_forms)
     versions = [proj.files()]
     op_log: list[list[str]] = [["init"]]
